@@ -412,14 +412,21 @@ def notifySessionJoined (a : Acc) (b : Nat) (r : String) (s : Nat) : Acc :=
     let others := removeL rm.members s
     if others = [] then a else procSession a s (.msg (.join others))
 
-/-- `Room.AddSession` for a session that is not yet a member. -/
-def roomAddSession (a : Acc) (b : Nat) (r : String) (s : Nat) (kind : Kind) (sessUser : String) : Acc :=
-  let rm := (a.h.rooms b r).getD {}
-  let found := rm.members.contains s
-  let rm1 : Room := { rm with
-    members := if found then rm.members else rm.members ++ [s]
+/-- The room record after `Room.AddSession` (a fresh room if there was none). -/
+def newRoom (h : Hub) (b : Nat) (r : String) (s : Nat) (sessUser : String) : Room :=
+  let rm := (h.rooms b r).getD {}
+  { rm with
+    members := if rm.members.contains s then rm.members else rm.members ++ [s]
     sessUser := if sessUser ≠ "" then (rm.sessUser.filter (fun p => p.1 ≠ s)) ++ [(s, sessUser)] else rm.sessUser }
-  let a1 : Acc := { a with h := setRoom a.h b r (some rm1) }
+
+/-- Table part of `Room.AddSession`. -/
+def addMember (h : Hub) (b : Nat) (r : String) (s : Nat) (sessUser : String) : Hub :=
+  setRoom h b r (some (newRoom h b r s sessUser))
+
+/-- `Room.AddSession`. -/
+def roomAddSession (a : Acc) (b : Nat) (r : String) (s : Nat) (kind : Kind) (sessUser : String) : Acc :=
+  let found := ((a.h.rooms b r).getD {}).members.contains s
+  let a1 : Acc := { a with h := addMember a.h b r s sessUser }
   let a2 := if found then a1 else
     let a21 := pubRoom a1 b r (.msg (.join [s]))
     if kind = .virtual then publishUsersChangedWithInternal a21 b r else a21
@@ -434,6 +441,12 @@ inductive JoinReply
   | fail                       -- transport failure / timeout
   deriving Repr, Inhabited
 
+/-- The bye sent to the connection (if any) of a session that is being replaced. -/
+def kickBye (a : Acc) (v : Nat) : Acc :=
+  match (a.h.sess v).bind (·.conn) with
+  | some _ => sendTo a v (.bye "room_session_reconnected")
+  | none => a
+
 /-- `Hub.disconnectByRoomSessionId`. -/
 def disconnectByRoomSessionId (a : Acc) (rs : String) (callerBackend : Nat) (requester : Nat) : Acc :=
   match a.h.rs2sid rs with
@@ -445,9 +458,7 @@ def disconnectByRoomSessionId (a : Acc) (rs : String) (callerBackend : Nat) (req
       if Generated.Hub.roomSessionBackendChecked && x.backend ≠ callerBackend then a else
       if Generated.Hub.selfKickGuarded && v = requester then a else
       let (a1, _) := leaveRoom a v
-      let a2 := match (a1.h.sess v).bind (·.conn) with
-        | some _ => sendTo a1 v (.bye "room_session_reconnected")
-        | none => a1
+      let a2 := kickBye a1 v
       -- `session.Close()` follows at once; the connection is closed by the bye
       let c := (a2.h.sess v).bind (·.conn)
       let a3 := closeSession a2 v
@@ -456,24 +467,54 @@ def disconnectByRoomSessionId (a : Acc) (rs : String) (callerBackend : Nat) (req
       | some c => { a4 with h := closeConn a4.h c }
       | none => a4
 
+/-- Table part of joining room `r`: bus listener, room-session id, waiting lists and the
+session's own record (`SubscribeRoomEvents`, `SetRoom`, `SetPermissions`). -/
+def joinTables (h : Hub) (s : Nat) (x : Sess) (r rsid : String) (perms : Option (List String)) : Hub :=
+  let b := x.backend
+  let h2 := setRoomL h b r (removeL (h.roomL b r) s ++ [s])
+  let h3 := if rsid ≠ "" then rsSet h2 s rsid else h2
+  let h4 : Hub := { h3 with anon := removeL h3.anon s,
+                            dialout := if x.kind = .internal && x.dialoutFeat then removeL h3.dialout s else h3.dialout }
+  setSess h4 s (some { x with roomSess := rsid, room := some r, seenJoin := [],
+                              perms := match perms with | some p => some p | none => x.perms })
+
 /-- `Hub.processJoinRoom` after a positive backend answer. -/
 def doJoin (a : Acc) (s : Nat) (r rsid : String) (perms : Option (List String)) (sessUser : String) : Acc :=
   let (a1, _) := leaveRoom a s
   match a1.h.sess s with
   | none => a1
   | some x =>
-    let b := x.backend
-    -- SubscribeRoomEvents
-    let h2 := setRoomL a1.h b r (removeL (a1.h.roomL b r) s ++ [s])
-    let h3 := if rsid ≠ "" then rsSet h2 s rsid else h2
-    let x1 : Sess := { x with roomSess := rsid }
-    -- create the room if needed happens in roomAddSession (`getD {}`)
-    let h4 : Hub := { h3 with anon := removeL h3.anon s,
-                              dialout := if x.kind = .internal && x.dialoutFeat then removeL h3.dialout s else h3.dialout }
-    let x2 : Sess := { x1 with room := some r, seenJoin := [],
-                               perms := match perms with | some p => some p | none => x1.perms }
-    let a5 := sendTo { a1 with h := setSess h4 s (some x2) } s (.room r)
-    roomAddSession a5 b r s x.kind sessUser
+    let a5 := sendTo { a1 with h := joinTables a1.h s x r rsid perms } s (.room r)
+    roomAddSession a5 x.backend r s x.kind sessUser
+
+/-- Leaving through a room message with an empty room id. -/
+def processLeave (a : Acc) (s : Nat) (x : Sess) : Acc :=
+  let (a1, was) := leaveRoom a s
+  if was then
+    let a2 := sendTo a1 s (.room "")
+    if x.user = "" && x.kind ≠ .internal then { a2 with h := { a2.h with anon := removeL a2.h.anon s ++ [s] } } else a2
+  else a1
+
+def alreadyIn (h : Hub) (x : Sess) (s : Nat) (r : String) : Bool :=
+  match h.rooms x.backend r with
+  | some rm => rm.members.contains s
+  | none => false
+
+/-- Joining the room the session is in already: only the room-session id is updated. -/
+def processAlready (a : Acc) (s : Nat) (x : Sess) (rsid : String) : Acc :=
+  let rs := if rsid = "" then "pub:" ++ toString s else rsid
+  let h1 := if x.roomSess = rs then a.h else setSess (rsSet a.h s rs) s (some { x with roomSess := rs })
+  sendTo { a with h := h1 } s (.error "already_joined")
+
+/-- After the backend answered the join request of an ordinary client. -/
+def processJoinReply (a : Acc) (s : Nat) (x : Sess) (r rsid : String) : JoinReply → Acc
+  | .fail => sendTo a s (.error "internal_error")
+  | .err code =>
+    let a1 := if rsid ≠ "" then disconnectByRoomSessionId a rsid x.backend s else a
+    sendTo a1 s (.error code)
+  | .ok perms su =>
+    let a1 := if rsid ≠ "" then disconnectByRoomSessionId a rsid x.backend s else a
+    doJoin a1 s r rsid perms su
 
 /-- `Hub.processRoom`. -/
 def processRoom (a : Acc) (s : Nat) (r rsid : String) (reply : JoinReply) : Acc :=
@@ -481,30 +522,10 @@ def processRoom (a : Acc) (s : Nat) (r rsid : String) (reply : JoinReply) : Acc 
   | none => a
   | some x =>
     if x.kind = .virtual then a else
-    if r = "" then
-      let (a1, was) := leaveRoom a s
-      if was then
-        let a2 := sendTo a1 s (.room "")
-        if x.user = "" && x.kind ≠ .internal then { a2 with h := { a2.h with anon := removeL a2.h.anon s ++ [s] } } else a2
-      else a1
-    else
-    let already := match a.h.rooms x.backend r with
-      | some rm => rm.members.contains s
-      | none => false
-    if already then
-      let rs := if rsid = "" then "pub:" ++ toString s else rsid
-      let h1 := if x.roomSess = rs then a.h else setSess (rsSet a.h s rs) s (some { x with roomSess := rs })
-      sendTo { a with h := h1 } s (.error "already_joined")
-    else if x.kind = .internal then doJoin a s r rsid none ""
-    else
-      match reply with
-      | .fail => sendTo a s (.error "internal_error")
-      | .err code =>
-        let a1 := if rsid ≠ "" then disconnectByRoomSessionId a rsid x.backend s else a
-        sendTo a1 s (.error code)
-      | .ok perms su =>
-        let a1 := if rsid ≠ "" then disconnectByRoomSessionId a rsid x.backend s else a
-        doJoin a1 s r rsid perms su
+    if r = "" then processLeave a s x else
+    if alreadyIn a.h x s r then processAlready a s x rsid else
+    if x.kind = .internal then doJoin a s r rsid none "" else
+    processJoinReply a s x r rsid reply
 
 /-! ### hello / resume / disconnect / bye / housekeeping -/
 
@@ -614,10 +635,14 @@ def housekeeping (a : Acc) (level : Nat) : Acc :=
       match a.h.sess s with
       | none => a
       | some x =>
-        let a' := match x.conn with
-          | some c => { a with outs := a.outs ++ [⟨c, Msg.bye "room_join_timeout", some x.backend⟩], h := closeConn a.h c }
+        -- bye to the connection (which is then closed) and `session.Close()`
+        let a' : Acc := match x.conn with
+          | some c => { a with outs := a.outs ++ [⟨c, Msg.bye "room_join_timeout", some x.backend⟩] }
           | none => a
-        closeSession a' s) a1 else a1
+        let a'' := closeSession a' s
+        match x.conn with
+        | some c => { a'' with h := closeConn a''.h c }
+        | none => a'') a1 else a1
   if level ≥ 1 then a2.h.expectHello.foldl (fun a c =>
       { a with outs := a.outs ++ [⟨c, Msg.bye "hello_timeout", none⟩], h := closeConn a.h c }) a2 else a2
 
